@@ -60,7 +60,7 @@ def _zero_load(ctx):
     for ck in (EN, SB):
         ci = prog.cls(ck)
         for mname in ("stress", "stress_secondary_branch"):
-            f = prog.lookup_method(ci, mname)
+            f = _solver_method(prog, ci, mname)
             calls = _newton_calls(f)
             if len(calls) != 1:
                 raise AnalysisError("%s.%s: expected one solver call" % (ci.name, mname))
@@ -212,6 +212,17 @@ def _newton_calls(fi):
     return [c for c in calls_in(fi.node) if (call_name(c) or "").endswith("optimize.newton")]
 
 
+def _solver_method(prog, ci, name):
+    """the public method `name`; if its solver call lives in an extracted private helper, the method with that helper expanded"""
+    f = prog.lookup_method(ci, name)
+    if f is not None and not _newton_calls(f):
+        from ..inline import inlined
+        f2 = inlined(prog, f)
+        if _newton_calls(f2):
+            return f2
+    return f
+
+
 def _kw(c, name, pos=None):
     for k in c.keywords:
         if k.arg == name:
@@ -243,7 +254,7 @@ def _wiring(ctx):
     for ck in (EN, SB):
         ci = prog.cls(ck)
         for mname, (unknown, given) in DIRS.items():
-            f = prog.lookup_method(ci, mname)
+            f = _solver_method(prog, ci, mname)
             if f is None:
                 raise AnalysisError("%s.%s missing" % (ci.name, mname))
             calls = _newton_calls(f)
@@ -252,7 +263,7 @@ def _wiring(ctx):
             _check_call(ctx, prog, ci, f, calls[0], unknown, given, f.params[1])
         # the strain belonging to a stress is the Ramberg-Osgood strain (primary) / its Masing doubling (secondary)
         for mname, ro, arg in (("strain", "strain", "stress"), ("strain_secondary_branch", "delta_strain", "delta_stress")):
-            f = prog.lookup_method(ci, mname)
+            f = _solver_method(prog, ci, mname)
             r = [s_ for s_ in f.node.body if isinstance(s_, ast.Return)][-1]
             v = r.value
             ok = isinstance(v, ast.Call) and isinstance(v.func, ast.Attribute) and v.func.attr == ro and \
@@ -269,6 +280,15 @@ def _wiring(ctx):
                 continue
             for c in _newton_calls(f):
                 func = _kw(c, "func", 0)
+                if isinstance(func, ast.Name) and func.id in f.params:
+                    # a generic wrapper around the solver (the residual is its parameter): analysed, expanded, at its call sites
+                    sites = [g for n2, d2 in ci.methods.items() for g in [d2[-1]] if g is not f and any(
+                        isinstance(cc.func, ast.Attribute) and cc.func.attr == name for cc in calls_in(g.node))]
+                    if sites and all(g.name in DIRS or g.name.endswith("not_converged_values") for g in sites):
+                        ctx.holds(f, c, "%s wraps the solver for %d caller(s); each is analysed with the wrapper expanded" %
+                                  (name, len(sites)), rule="R-C06-1")
+                        continue
+                    raise AnalysisError("%s: solver wrapper with callers outside the public solve methods" % name)
                 res = prog.lookup_method(ci, func.attr) if is_self_attr(func) else None
                 if res is None:
                     ctx.violated(f, c, "retry helper solves an unknown residual %s" % norm_text(func), rule="R-C06-1")
@@ -505,7 +525,7 @@ def _parity_rule(ctx):
                 ctx.violated(f, f.node, "%s.%s is %s under simultaneous negation of stress and load (neither odd nor even): a sign or "
                              "an abs() was dropped and the law is no longer odd" % (ci.name, name, p), text="%s parity %s" % (name, p))
         for mname, (unknown, given) in DIRS.items():
-            f = prog.lookup_method(ci, mname)
+            f = _solver_method(prog, ci, mname)
             c = _newton_calls(f)[0]
             x0 = _kw(c, "x0", 1)
             gp = f.params[1]
